@@ -1,4 +1,5 @@
 import DclabModel.Lemmas.Basin
+import DclabModel.Lemmas.BasinDefs
 /-!
 # C07 — Basin-provided features equal the origin's data for the mapped events
 
@@ -17,6 +18,13 @@ import DclabModel.Lemmas.Basin
 * `map_reuse_sound`, `store_history_sound`   `store_basin` never points a definition at a
                          `basinmapK` feature with different content, for every history of calls;
 * `F08_old_export_wrong` the code before the fix violated `export_composes` (witness).
+* session 4: `stream_history_sound`, `append_holds_written` (map features written chunk-wise),
+  `export_defs_read_back`, `shared_name_equal_maps` (definition records of an export),
+  `first_offering_basin_wins`, `lookup_deterministic` (priority among basins),
+  `invalid_map_rejected`, `nd_route_rejects_iff`, `int_route_rejects_iff` (out-of-range maps),
+  `copy_selected_same`, `copy_unselected_via_file_basins`, `copy_never_other_data` (`rtdc_copy`
+  with a feature selection / `basin_definition_copy`), `records_dedup`,
+  `records_share_name_share_map` (identical definitions are written once).
 -/
 namespace DclabModel.C07
 open DclabModel.Basin
@@ -255,5 +263,212 @@ theorem F08_old_export_wrong :
     ((exportFile true (viaBasin w08 3) 1 ⟨[], [⟨.file 0, none, none⟩]⟩ []
         ⟨some [1, 3], some [false, true]⟩).bind
       fun out => resolve1 (viaBasin w08 3) out 0) = some [13] := by decide
+
+/-! ## 7. session 4: streamed map features, definition records, priority, invalid maps -/
+
+/-- `store_feature("basinmapK", chunk)` on an existing map feature: afterwards the feature holds
+the old content followed by the chunk (a missing feature is created with the chunk); every other
+map feature is untouched. -/
+theorem append_holds_written (maps : Maps) (k : Nat) (c : List Nat) :
+    lk k (appendOne maps k c) = some ((lk k maps).getD [] ++ c) ∧
+    ∀ j, j ≠ k → lk j (appendOne maps k c) = lk j maps :=
+  ⟨lk_appendOne_same maps k c, fun _ hj => lk_appendOne_other maps c hj⟩
+
+/-- For every history of writer calls — `store_basin` with automatic or explicit map names
+(refused calls leave the file unchanged) interleaved with rounds of appended map chunks — every
+definition of the file reads back exactly what was written for it: the map it was stored with
+followed by all chunks appended to the feature it names. -/
+theorem stream_history_sound (maps : Maps) (ops : List WOp) :
+    Sound (runOps ⟨maps, []⟩ ops) :=
+  runOps_sound ops (fun d hd => by cases hd)
+
+example : (runOps ⟨[], []⟩ [.store 0 (.auto [1, 2]), .append [(0, [300])], .store 1 (.auto [1, 2, 300]),
+      .store 2 (.auto [1, 2, 7]), .append [(0, [4]), (1, [5])]]).maps
+    = [(0, [1, 2, 300, 4]), (1, [1, 2, 7, 5])] := by decide
+
+/-- Two definitions of a soundly written file that share a mapping name have equal maps. -/
+theorem shared_name_equal_maps {s : SFile} (hs : Sound s) {d1 d2 : SDef}
+    (h1 : d1 ∈ s.defs) (h2 : d2 ∈ s.defs) (hm : d1.mapping = d2.mapping) :
+    d1.intended = d2.intended := by
+  have e1 := hs d1 h1
+  have e2 := hs d2 h2
+  unfold SFile.mapOf at e1 e2
+  rw [hm] at e1
+  rw [e1] at e2
+  exact Option.some.inj e2
+
+/-- The bookkeeping of an exported file (`exportStore`: the `store_basin` calls of
+`Export.hdf5` on the fresh file, names `basinmap0..9` allocated / reused): the i-th definition
+record reads back — through its mapping *name* — exactly the composed map that `exportFile`
+computed for the i-th basin, and no two records share a name unless their maps are equal.
+Together with `export_composes` / `chain` (which speak about map contents) this covers the
+written file for every chain of exports. -/
+theorem export_defs_read_back (out : RFile) (s : SFile) (h : exportStore out = some s) :
+    Sound s ∧ s.defs.map (·.intended) = out.basins.map (·.map) ∧
+    (∀ d1 ∈ s.defs, ∀ d2 ∈ s.defs, d1.mapping = d2.mapping → d1.intended = d2.intended) := by
+  have hs : Sound s := store_from_empty [] _ s h
+  refine ⟨hs, ?_, fun d1 h1 d2 h2 hm => shared_name_equal_maps hs h1 h2 hm⟩
+  have := storeAll_intended (defReqsFrom 0 out.basins) (s := ⟨[], []⟩) (fun d hd => by cases hd) h
+  simpa [defReqsFrom_content] using this
+
+example : (exportStore ⟨[], [⟨.file 0, none, some [1, 3]⟩, ⟨.file 1, none, some [0, 1]⟩,
+      ⟨.file 2, none, some [1, 3]⟩, ⟨.file 3, none, none⟩]⟩).map (fun s => s.defs.map (·.mapping))
+    = some [some 0, some 1, some 0, none] := by decide
+
+/-- Priority among basins: for a feature that is not stored in the file, the value is the one
+delivered by the *first* basin (in the order of `ds.basins`) whose route succeeds — every earlier
+basin failed, later basins are not consulted. -/
+theorem first_offering_basin_wins (sub : Sub) (file : RFile) (f : Feat) (pre post : List RBasin)
+    (b : RBasin) (rows : List Row) (hi : lk f file.innate = none)
+    (hb : file.basins = pre ++ b :: post) (hpre : ∀ p ∈ pre, route sub p f = none)
+    (hr : route sub b f = some rows) : resolve1 sub file f = some rows := by
+  unfold resolve1
+  simp only [hi, hb]
+  clear hb hi
+  induction pre with
+  | nil => simp [firstSome, hr]
+  | cons p t ih =>
+    have hp : route sub p f = none := hpre p (List.mem_cons_self ..)
+    simp only [List.cons_append, firstSome, hp]
+    exact ih (fun q hq => hpre q (List.mem_cons_of_mem _ hq))
+
+/-- Determinism: the lookup is a function of the file's content and the resolver — later basins
+cannot change an answer given by the stored features or by an earlier basin. -/
+theorem lookup_deterministic (sub : Sub) (file : RFile) (f : Feat) (extra : List RBasin)
+    (rows : List Row) (h : resolve1 sub file f = some rows) :
+    resolve1 sub { file with basins := file.basins ++ extra } f = some rows := by
+  unfold resolve1 at h ⊢
+  cases hi : lk f file.innate with
+  | some r => simpa [hi] using h
+  | none =>
+    simp only [hi] at h ⊢
+    generalize file.basins = bs at h
+    induction bs with
+    | nil => simp [firstSome] at h
+    | cons p t ih =>
+      simp only [List.cons_append, firstSome] at h ⊢
+      cases hp : route sub p f with
+      | some r => simpa [hp] using h
+      | none => simp only [hp] at h ⊢; exact ih h
+
+/-- A map with an index outside the basin (`map[j] ≥ len(basin)`): the whole-array route (cached
+`feat_obj[:][basinmap]`, used by `[:]`, `np.asarray`, slices and masks of scalar features)
+raises for *every* index expression — the file cannot be read through this basin. -/
+theorem invalid_map_rejected (p : Proxy) (hbad : ∃ j ∈ p.m, p.o.length ≤ j) :
+    p.getArr = none ∧ ∀ idx, p.viaCache idx = none := by
+  have h : p.getArr = none := gather_eq_none_iff.mpr hbad
+  exact ⟨h, fun idx => by simp [Proxy.viaCache, h]⟩
+
+/-- The event-wise (nd) route raises exactly when the index expression is itself out of range
+for the map or one of the map entries it *touches* is outside the basin. -/
+theorem nd_route_rejects_iff (p : Proxy) (idx : List Nat) :
+    p.viaNd idx = none ↔
+      (∃ i ∈ idx, p.m.length ≤ i) ∨ ∃ js, gather p.m idx = some js ∧ ∃ j ∈ js, p.o.length ≤ j := by
+  unfold Proxy.viaNd
+  cases hg : gather p.m idx with
+  | none =>
+    simp only [Option.bind_none, true_iff]
+    exact Or.inl (gather_eq_none_iff.mp hg)
+  | some js =>
+    simp only [Option.bind_some, Option.some.injEq, exists_eq_left']
+    constructor
+    · intro h; exact Or.inr (gather_eq_none_iff.mp h)
+    · intro h
+      rcases h with h | h
+      · rw [gather_eq_none_iff.mpr h] at hg; cases hg
+      · exact gather_eq_none_iff.mpr h
+
+/-- The integer route raises exactly when the integer is out of range for the map or the one
+entry it reads is outside the basin (so it can succeed on a map that `[:]` rejects). -/
+theorem int_route_rejects_iff (p : Proxy) (i : Int) :
+    p.getInt i = none ↔
+      normIdx p.m.length i = none ∨
+      ∃ k, normIdx p.m.length i = some k ∧ ∀ j, p.m[k]? = some j → p.o.length ≤ j := by
+  unfold Proxy.getInt
+  cases hn : normIdx p.m.length i with
+  | none => simp
+  | some k =>
+    cases hm : p.m[k]? with
+    | none =>
+      simp only [Option.bind_some, hm, Option.bind_none, true_iff]
+      exact Or.inr ⟨k, rfl, fun j h => by rw [hm] at h; cases h⟩
+    | some j =>
+      simp only [Option.bind_some, hm]
+      constructor
+      · intro h
+        refine Or.inr ⟨k, rfl, fun j' hj' => ?_⟩
+        rw [hm] at hj'
+        cases hj'
+        rcases Nat.lt_or_ge j p.o.length with hlt | hge
+        · simp [List.getElem?_eq_getElem hlt] at h
+        · exact hge
+      · intro h
+        rcases h with h | ⟨k', hk', h⟩
+        · cases h
+        · cases hk'
+          exact List.getElem?_eq_none (h j hm)
+
+example : (Proxy.mk [10, 11, 12] [0, 5, 2]).getInt 0 = some 10 ∧
+    (Proxy.mk [10, 11, 12] [0, 5, 2]).getInt 1 = none ∧
+    (Proxy.mk [10, 11, 12] [0, 5, 2]).viaCache [0] = none ∧
+    (Proxy.mk [10, 11, 12] [0, 5, 2]).viaNd [0, 2] = some [10, 12] := by decide
+
+/-! ## 8. copies (`rtdc_copy` with a feature selection, `basin_definition_copy`) -/
+
+/-- A feature that is in the selection of the copy is shown by the copy exactly as by the source
+(stored rows, internal-basin rows and basin routes alike): definitions that are not written or
+are rewritten make no difference for it. -/
+theorem copy_selected_same (sub : Sub) (src : RFile) (sel : Feat → Bool) (f : Feat)
+    (hf : sel f = true) : resolve1 sub (copyFile src sel) f = resolve1 sub src f := by
+  simp only [resolve1, copyFile, lk_filter_sel hf, firstSome_copy_sel hf]
+
+/-- A feature outside the selection is shown by the copy through the *file* basins of the source
+only, in their order: neither the stored rows nor an internal basin of the source can leak into
+the copy. -/
+theorem copy_unselected_via_file_basins (sub : Sub) (src : RFile) (sel : Feat → Bool) (f : Feat)
+    (hf : sel f = false) :
+    resolve1 sub (copyFile src sel) f =
+      firstSome (fun b => route sub b f) (src.basins.filter fun b => !isInternal b) := by
+  simp only [resolve1, copyFile, lk_filter_unsel hf, firstSome_copy_unsel hf]
+
+/-- Hence, for a source whose basins are coherent with the rows it shows for `f`, every copy
+(any selection) shows these rows or does not offer `f` — never other data. -/
+theorem copy_never_other_data (sub : Sub) (src : RFile) (sel : Feat → Bool) (f : Feat)
+    (rows : List Row) (hsrc : resolve1 sub src f = some rows)
+    (hcoh : ∀ b ∈ src.basins, Coh sub b f rows) :
+    resolve1 sub (copyFile src sel) f = some rows ∨ resolve1 sub (copyFile src sel) f = none := by
+  cases hf : sel f with
+  | true => exact Or.inl ((copy_selected_same sub src sel f hf).trans hsrc)
+  | false =>
+    rw [copy_unselected_via_file_basins sub src sel f hf]
+    exact firstSome_Coh _ fun b hb => hcoh b (List.mem_filter.mp hb).1
+
+example : (copyFile ⟨[(0, [1, 2])], [⟨.internal [(1, [7, 8]), (2, [5, 6])], some [1, 2], some [0, 0]⟩,
+      ⟨.file 9, none, none⟩]⟩ (fun f => f == 2)).basins.map (·.feats) = [some [2], none] := by decide
+
+/-! ## 9. definition records are written once -/
+
+/-- For every list of stored definitions: the `basins` group holds no record twice, every stored
+definition has its record, and every record belongs to a stored definition — storing an
+identical definition again (same text, same mapping name) does not add a record. -/
+theorem records_dedup (s : SFile) :
+    s.records.Nodup ∧ (∀ d ∈ s.defs, d.key ∈ s.records) ∧
+    (∀ r ∈ s.records, ∃ d ∈ s.defs, r = d.key) := by
+  obtain ⟨h1, h2⟩ := recsFrom_spec s.defs [] List.nodup_nil
+  refine ⟨h1, fun d hd => (h2 d.key).mpr (Or.inr ⟨d, hd, rfl⟩), fun r hr => ?_⟩
+  rcases (h2 r).mp hr with h | h
+  · cases h
+  · exact h
+
+/-- Records that carry a mapping name read back one map per name: two records of a soundly
+written file with the same mapping name stand for definitions with equal maps. -/
+theorem records_share_name_share_map {s : SFile} (hs : Sound s) {d1 d2 : SDef}
+    (h1 : d1 ∈ s.defs) (h2 : d2 ∈ s.defs) (hk : d1.key.2 = d2.key.2) :
+    d1.intended = d2.intended :=
+  shared_name_equal_maps hs h1 h2 hk
+
+example : (runOps ⟨[], []⟩ [.store 0 (.auto [1, 2]), .store 0 (.auto [1, 2]), .store 1 (.auto [1, 2]),
+      .store 0 (.auto [2, 2]), .store 0 .same, .store 0 .same]).records
+    = [(0, some 0), (1, some 0), (0, some 1), (0, none)] := by decide
 
 end DclabModel.C07
